@@ -143,7 +143,7 @@ CHECKS["C01"] = dict(
          "operation list; non-trivial = an upload followed by at least one read/seek, or a scaled tree",
     exhaustive=dict(quick=False, thorough=False),
     assumptions=COMMON_ASSUME + ["C01's read clauses look at buffers with cap = len (capacity is C07's subject)"],
-    driver_timeout=2400, judge_timeout=1800, selftest_scenarios=6,
+    driver_timeout=5400, judge_timeout=3600, selftest_scenarios=6,
 )
 
 # ------------------------------------------------------------------------------------ C02
@@ -173,7 +173,7 @@ CHECKS["C02"] = dict(
          "writer run; distinct = distinct (size, split list) / (branching, count, last length, split)",
     exhaustive=dict(quick=False, thorough=False),
     assumptions=COMMON_ASSUME[:3],
-    driver_timeout=2400, judge_timeout=1800, selftest_scenarios=6,
+    driver_timeout=5400, judge_timeout=3600, selftest_scenarios=6,
 )
 
 # ------------------------------------------------------------------------------------ C07
@@ -202,7 +202,7 @@ CHECKS["C07"] = dict(
          "operation list; non-trivial = at least one read/seek on an uploaded file",
     exhaustive=dict(quick=False, thorough=False),
     assumptions=COMMON_ASSUME,
-    driver_timeout=2400, judge_timeout=1800, selftest_scenarios=4,
+    driver_timeout=5400, judge_timeout=3600, selftest_scenarios=4,
 )
 
 
